@@ -255,9 +255,14 @@ def run_scenario(ctx, rnd, s, opts):
     nll_g, g_tot = fcn.nll_grad(x); g_tot = arr(g_tot)
     nll_h, g_h, h_tot = fcn.nll_grad_hessian(x); h_tot = np.array(h_tot, dtype=np.float64); g_h = arr(g_h)
     pvec = [round(rnd.uniform(-1, 1), 3) for _ in range(K)]
-    g_p, hp = fcn.grad_hessp(xl, np.array(pvec)); g_p = arr(g_p); hp = arr(hp)
-    fcn.vm.set_all(x)
+    # FCN.grad_hessp of the cfit family is an OPEN known finding (F13: it inherits the default-likelihood
+    # grad_hessp_batch); it is probed by the fixed reproducer stream f13_probe, not here.
+    do_hessp = s.model not in CFIT_LIKE
+    if do_hessp:
+        g_p, hp = fcn.grad_hessp(xl, np.array(pvec)); g_p = arr(g_p); hp = arr(hp)
+        fcn.vm.set_all(x)
     ctx.evaluations += 4
+    hsym = float(np.max(np.abs(h_tot - h_tot.T)))
     tag = "b%d_s%d" % (b0, s.sid)
     site = "CombineFCN" if len(fcns) > 1 else "FCN"
     meta = lambda layer, st, **kw: dict({"layer": layer, "site": st, "model": s.model, "batch": b0, "scenario": s.sid}, **kw)
@@ -265,23 +270,26 @@ def run_scenario(ctx, rnd, s, opts):
     cases.append(arith(tag + "_TVH", Rq(float(nll_h)), tot_call, 1e-9 * (abs(tot_call) + 1), meta("value", site + ".nll_grad_hessian value vs __call__")))
     gsc = max(abs(t) for t in g_tot) + sum(max(abs(t) for t in p.grad) for p in parts)
     hsc = float(np.max(np.abs(h_tot))) + sum(float(np.max(np.abs(p.hess))) for p in parts)
+    cases.append(arith(tag + "_TSYM", Rq(hsym), 0.0, ATOL + RTOL * hsc, meta("hessian", site + ".nll_grad_hessian (symmetry)")))
     for k in range(K):
         cg = "gauss_grad %s" % cexpr(k) if names[k] in cs else "0"
         cases.append(arith(tag + "_TG%d" % k, "grad_total (rsum %s) (%s)" % (Rlist([p.grad[k] for p in parts]), cg), g_tot[k], ATOL + RTOL * gsc,
                            meta("gradient", site + ".nll_grad (sum of parts + constraint)", param=names[k])))
         cases.append(arith(tag + "_TGH%d" % k, Rq(g_h[k]), g_tot[k], ATOL + RTOL * gsc, meta("gradient", site + ".nll_grad_hessian gradient", param=names[k])))
-        cases.append(arith(tag + "_PG%d" % k, Rq(g_p[k]), g_tot[k], ATOL + RTOL * gsc, meta("gradient", site + ".grad_hessp gradient", param=names[k])))
-        for l in range(K):
+        if do_hessp:
+            cases.append(arith(tag + "_PG%d" % k, Rq(g_p[k]), g_tot[k], ATOL + RTOL * gsc, meta("gradient", site + ".grad_hessp gradient", param=names[k])))
+        for l in range(k, K):
             ch = "gauss_hess %s" % cexpr(k) if names[k] in cs else "0"
             cases.append(arith(tag + "_TH%d_%d" % (k, l), "hess_total (rsum %s) (%s) %s" % (Rlist([float(p.hess[k][l]) for p in parts]), ch, "true" if k == l else "false"),
                                float(h_tot[k][l]), ATOL + RTOL * hsc, meta("hessian", site + ".nll_grad_hessian (sum of parts + constraint)", param=(names[k], names[l]))))
         # H.p : row k of the implementation's own total Hessian (already tied above) times p
         psc = float(np.sum(np.abs(h_tot[k] * np.array(pvec))))
-        cases.append(arith(tag + "_P%d" % k, "row_dot %s %s" % (Rlist(h_tot[k]), Rlist(pvec)), hp[k], ATOL + 10 * RTOL * (psc + hsc * 1e-3),
-                           meta("hessp", site + ".grad_hessp", param=names[k], p=pvec, hessp=hp[k], H_row=h_tot[k].tolist(),
-                                constraint=cs.get(names[k]))))
+        if do_hessp:
+                cases.append(arith(tag + "_P%d" % k, "row_dot %s %s" % (Rlist(h_tot[k]), Rlist(pvec)), hp[k], ATOL + 10 * RTOL * (psc + hsc * 1e-3),
+                               meta("hessp", site + ".grad_hessp", param=names[k], p=pvec, hessp=hp[k], H_row=h_tot[k].tolist(),
+                                    constraint=cs.get(names[k]))))
     records.append({"scenario": s.sid, "model": s.model, "group": "total", "batch": b0, "params": x, "names": names, "grad": g_tot,
-                    "hess": h_tot.tolist(), "p": pvec, "hessp": hp, "nll": tot_call, "config": s.cfg})
+                    "hess": h_tot.tolist(), "p": pvec, "hessp": hp if do_hessp else None, "nll": tot_call, "config": s.cfg})
     # ---- other batch sizes: gradient (and value) do not depend on the batch size
     others = [b for b in batches if b != b0]
     if not opts.get("all_batches"):
@@ -317,22 +325,28 @@ def bound_cases(ctx, rnd, s, cfg, fcn, names, x):
     kinds = {}
     cand = [n for n in names if n.endswith("_mass") or n.endswith("_width") or n.endswith("_total_0r")]
     rnd.shuffle(cand)
+    deltas = {}
     for n, kind in zip(cand, BOUND_KINDS):
         y0 = float(vm.get(n))
+        d1, d2 = abs(y0) * rnd.uniform(0.05, 0.25), abs(y0) * rnd.uniform(0.05, 0.25)
         if kind == "sin":
-            a, b = y0 - rnd.uniform(0.1, 0.4), y0 + rnd.uniform(0.1, 0.4); vm.set_bound({n: (a, b)}, overwrite=True)
+            a, b = y0 - d1, y0 + d2; vm.set_bound({n: (a, b)}, overwrite=True)
         elif kind == "lo":
-            a, b = y0 - rnd.uniform(0.05, 0.3), None; vm.set_bound({n: (a, None)}, overwrite=True)
+            a, b = y0 - d1, None; vm.set_bound({n: (a, None)}, overwrite=True)
         else:
-            a, b = None, y0 + rnd.uniform(0.05, 0.3); vm.set_bound({n: (None, b)}, overwrite=True)
-        kinds[n] = (kind, a, b)
+            a, b = None, y0 + d1; vm.set_bound({n: (None, b)}, overwrite=True)
+        kinds[n] = (kind, a, b); deltas[n] = d1
         ctx.count("bound:" + kind)
     try:
         xs = []
         for n in names:
             if n in kinds:
                 kind = kinds[n][0]
-                xs.append(rnd.uniform(-1.2, 1.2) if kind == "sin" else rnd.uniform(0.2, 1.5) * rnd.choice([-1, 1]))
+                if kind == "sin":
+                    xs.append(rnd.uniform(-1.2, 1.2))
+                else:  # y = bound +- (sqrt(x^2+1) - 1): stay within ~40% of the distance to the start value
+                    dd = deltas[n] * rnd.uniform(0.6, 1.4)
+                    xs.append(math.sqrt((1 + dd) ** 2 - 1) * rnd.choice([-1, 1]))
             else:
                 xs.append(float(vm.get(n)))
         xs = np.array(xs)
@@ -363,26 +377,37 @@ def bound_cases(ctx, rnd, s, cfg, fcn, names, x):
         nll_y, g_y = fcn.nll_grad(ys); g_y = arr(g_y)
         nll_yh, g_yh, h_y = fcn.nll_grad_hessian(ys); h_y = np.array(h_y, dtype=np.float64)
         pvec = np.array([round(rnd.uniform(-1, 1), 3) for _ in range(K)])
-        g_yp, hp_y = fcn.grad_hessp(ys, pvec * dy); hp_y = arr(hp_y)
+        do_hessp = s.model not in CFIT_LIKE
+        if do_hessp:
+            g_yp, hp_y = fcn.grad_hessp(ys, pvec * dy); hp_y = arr(hp_y)
         # wrappers
         nll_x, g_x = vm.trans_fcn_grad(fcn.nll_grad)(xs); g_x = arr(g_x)
         nll_xh, g_xh, h_x = vm.trans_f_grad_hess(fcn.nll_grad_hessian)(xs); h_x = np.array(h_x, dtype=np.float64); g_xh = arr(g_xh)
-        g_xp, hp_x = vm.trans_grad_hessp(fcn.grad_hessp)(xs, pvec); g_xp = arr(g_xp); hp_x = arr(hp_x)
+        if do_hessp:
+            g_xp, hp_x = vm.trans_grad_hessp(fcn.grad_hessp)(xs, pvec); g_xp = arr(g_xp); hp_x = arr(hp_x)
         ctx.evaluations += 6
+        binfo = {"bounds": {n: kinds[n] for n in kinds}, "names": names, "x_fit_space": xs.tolist(), "y": ys.tolist(), "dydx": dy.tolist(),
+                 "d2ydx2": d2y.tolist(), "p": pvec.tolist(), "grad_y": g_y, "hess_y": h_y.tolist(), "grad_x_reported": g_x,
+                 "hess_x_reported": h_x.tolist(), "hessp_x_reported": hp_x if do_hessp else None,
+                 "hess_x_expected(y' H y' + diag(g y''))": (dy[:, None] * h_y * dy[None, :] + np.diag(np.array(g_y) * d2y)).tolist(), "config": s.cfg}
         UNF = "trans_grad trans_hess trans_hessp y_sin dy_sin d2y_sin y_lo dy_lo d2y_lo y_up dy_up d2y_up"
         tac = "cbv [%s]; %s" % (UNF, IP)
         gsc = max(abs(t) for t in g_y) * max(1.0, float(np.max(np.abs(dy))))
         hsc = float(np.max(np.abs(h_y))) * max(1.0, float(np.max(np.abs(dy))) ** 2) + gsc * float(np.max(np.abs(d2y)))
         out.append((tag + "_V", le(Rq(float(nll_x)), float(nll_y), 1e-9 * (abs(float(nll_y)) + 1)), IP, meta("value", "trans_fcn_grad value")))
         for k in range(K):
-            for nm, gv in (("G", g_x), ("GH", g_xh), ("GP", g_xp)):
+            for nm, gv in ((("G", g_x), ("GH", g_xh), ("GP", g_xp)) if do_hessp else (("G", g_x), ("GH", g_xh))):
                 out.append((tag + "_%s%d" % (nm, k), le("trans_grad %s %s" % (Rq(g_y[k]), dexpr[k]), gv[k], ATOL + RTOL * gsc), tac,
                             meta("gradient", "VarsManager.trans_fcn_grad/trans_f_grad_hess/trans_grad_hessp gradient", param=names[k], wrapper=nm)))
-            for l in range(K):
+            for l in range(k, K):
                 out.append((tag + "_H%d_%d" % (k, l), le("trans_hess %s %s %s %s %s %s" % (Rq(float(h_y[k][l])), dexpr[k], dexpr[l], Rq(g_y[k]), d2expr[k], "true" if k == l else "false"),
                                                         float(h_x[k][l]), ATOL + RTOL * hsc), tac, meta("hessian", "VarsManager.trans_f_grad_hess", param=(names[k], names[l]))))
-            out.append((tag + "_P%d" % k, le("trans_hessp %s %s %s %s %s" % (Rq(hp_y[k]), dexpr[k], Rq(g_y[k]), d2expr[k], Rq(float(pvec[k]))), hp_x[k], ATOL + 10 * RTOL * hsc), tac,
+            if do_hessp:
+                out.append((tag + "_P%d" % k, le("trans_hessp %s %s %s %s %s" % (Rq(hp_y[k]), dexpr[k], Rq(g_y[k]), d2expr[k], Rq(float(pvec[k]))), hp_x[k], ATOL + 10 * RTOL * hsc), tac,
                         meta("hessp", "VarsManager.trans_grad_hessp", param=names[k])))
+        for c in out:
+            if c[3]["site"].startswith("VarsManager"):
+                c[3]["bound_case"] = binfo
     finally:
         for n in kinds:
             vm.bnd_dic.pop(n, None)
@@ -400,16 +425,50 @@ def plan(ctx, rnd):
     for rep in range(reps):
         for m in MODELS:
             for ngroup in ((1,) if quick else (1, 2)):
-                sc.append((sid, m, ngroup, True, {"fd": m in ("default", "cfit"), "bounds": m in ("default", "cfit_extended", "extended"),
-                                                 "all_batches": m in ("default", "cfit"), "tie": False, "hess_batches": m in ("default", "cfit", "cfit_extended")}))
+                sc.append((sid, m, ngroup, True, {"fd": m in ("default", "cfit"), "bounds": m == "default" or (not quick and m in ("extended", "cfit_extended")),
+                                                 "all_batches": m == "default" or not quick, "tie": False, "hess_batches": m in ("default", "cfit") or not quick}))
                 sid += 1
-        sc.append((sid, "default", 2, True, {"fd": False, "bounds": True, "all_batches": False, "tie": True, "hess_batches": True})); sid += 1
-        sc.append((sid, "extended", 2, False, {"fd": False, "bounds": False, "all_batches": False, "tie": True, "hess_batches": False})); sid += 1
+        sc.append((sid, "default", 2, True, {"fd": False, "bounds": True, "all_batches": False, "tie": True, "hess_batches": False})); sid += 1
         sc.append((sid, "cfit", 2, True, {"fd": False, "bounds": False, "all_batches": False, "tie": False, "hess_batches": False})); sid += 1
+        if not quick:
+            sc.append((sid, "extended", 2, False, {"fd": False, "bounds": False, "all_batches": False, "tie": True, "hess_batches": False})); sid += 1
+    # fixed reproducer stream of the open known finding F13 (independent of the seed)
+    for i, m in enumerate(("cfit", "cfit_cached", "cfit_extended", "simple_cfit")):
+        sc.append((900 + i, m, 1, False, {"f13": True}))
     only = os.environ.get("VERIF_ONLY")
     if only:
         sc = [x for x in sc if x[1] in only.split(",")]
     return sc
+
+
+F13_SITE = "FCN.grad_hessp for the cfit family (inherits the default-likelihood grad_hessp_batch)"
+F13_FP = "cfit_family:grad_hessp"
+
+
+def f13_probe(acc, sid, m):
+    """deterministic reproducer of F13: FCN.grad_hessp(x, p) vs FCN.nll_grad gradient and FCN.nll_grad_hessian . p"""
+    from tf_pwa.config_loader import ConfigLoader
+    rnd = random.Random(1313 + sid)
+    s = make_scenario(acc, rnd, sid, m, 1, False, {"tie": False})
+    cfg = ConfigLoader(s.cfg)
+    fcn = cfg.get_fcn(batch=7)
+    names = list(cfg.vm.trainable_vars)
+    x = [float(cfg.vm.get(n)) for n in names]
+    p = np.array([0.3, -0.7, 0.5, 0.2, 0.1, -0.4][: len(x)])
+    g = np.array(fcn.nll_grad(x)[1], dtype=np.float64)
+    h = np.array(fcn.nll_grad_hessian(x)[2], dtype=np.float64)
+    gp, hp = fcn.grad_hessp(x, p)
+    gp, hp = np.array(gp, dtype=np.float64), np.array(hp, dtype=np.float64)
+    acc.evaluations += 3
+    acc.count("f13_reproducer:" + m)
+    bad_g = float(np.max(np.abs(gp - g))) > 1e-6 * (float(np.max(np.abs(g))) + 1)
+    bad_h = float(np.max(np.abs(hp - h @ p))) > 1e-6 * (float(np.max(np.abs(h @ p))) + 1)
+    if bad_g or bad_h:
+        acc.fail("hessp", "f13_%s" % m, "FCN.grad_hessp of model %s returns the default-likelihood gradient / H.p: grad_hessp grad %s vs nll_grad grad %s; "
+                 "H.p %s vs nll_grad_hessian.p %s" % (m, np.round(gp, 6).tolist(), np.round(g, 6).tolist(), np.round(hp, 6).tolist(), np.round(h @ p, 6).tolist()),
+                 site=F13_SITE, fingerprint=F13_FP,
+                 failing_input={"config": s.cfg, "params": dict(zip(names, x)), "p": p.tolist(), "grad_hessp": [gp.tolist(), hp.tolist()],
+                                "nll_grad_gradient": g.tolist(), "nll_grad_hessian_times_p": (h @ p).tolist()})
 
 
 class Acc(c06.Acc):
@@ -452,9 +511,11 @@ def _worker(args):
     res = {"item": item, "cases": [], "records": [], "error": None}
     try:
         with contextlib.redirect_stdout(io.StringIO()):
-            s = make_scenario(acc, srnd, sid, m, ngroup, gauss, opts)
-            # small samples: the derivative capture is O(N K^2)
-            res["cases"], res["records"] = run_scenario(acc, srnd, s, opts)
+            if opts.get("f13"):
+                f13_probe(acc, sid, m)
+            else:
+                s = make_scenario(acc, srnd, sid, m, ngroup, gauss, opts)
+                res["cases"], res["records"] = run_scenario(acc, srnd, s, opts)
     except Exception:
         import traceback
         res["error"] = traceback.format_exc()[-1800:]
@@ -505,6 +566,8 @@ def search(ctx, fails):
                 if np.max(np.abs(h_fd - h_impl)) > 1e-4 * (np.max(np.abs(h_impl)) + 1):
                     return {"check": "finite differences of FCN.nll_grad gradient vs FCN.nll_grad_hessian", "config": r["config"], "params": dict(zip(names, x0)),
                             "batch": r["batch"], "hessian_reported": h_impl.tolist(), "hessian_finite_difference": h_fd.tolist()}
+                if r.get("hessp") is None:
+                    continue
                 p = np.array(r["p"])
                 gp, hp = fcn.grad_hessp(list(x0), p)
                 hp = np.array(hp, dtype=np.float64)
@@ -564,9 +627,12 @@ def run(ctx):
                 fi = {"check": "FCN.grad_hessp(x, p)[1][k] vs row k of FCN.nll_grad_hessian(x)[2] times p", "param": meta.get("param"), "p": meta["p"],
                       "hessp_reported": meta["hessp"], "H_row": meta["H_row"], "H_row_dot_p": float(np.dot(meta["H_row"], meta["p"])),
                       "gaussian_constraint(theta,mean,sigma)": meta.get("constraint"), "model": meta.get("model"), "scenario": meta.get("scenario")}
+            if fi is None and "bound_case" in meta:
+                fi = dict(meta["bound_case"], check="VarsManager.trans_* wrapper vs chain rule on the implementation's own y-space gradient/Hessian",
+                          case=cid, param=meta.get("param"))
             ctx.fail(meta["layer"], cid, "implementation value not within tolerance of the model (%s) [%s, model=%s, param=%s]"
                      % (res[cid], meta["site"], meta.get("model"), meta.get("param")),
-                     inp={k: (v if not isinstance(v, (list, tuple)) or len(v) < 12 else str(v)[:200]) for k, v in meta.items()},
+                     inp={k: (v if not isinstance(v, (list, tuple)) or len(v) < 12 else str(v)[:200]) for k, v in meta.items() if k != "bound_case"},
                      site=meta["site"], fingerprint="%s:%s" % (meta.get("model"), meta["layer"]), failing_input=fi)
     return common.finish(ctx, search=search, technique=TECHNIQUE, extra_assumptions=[
         "ORACLE: TensorFlow autodiff of the amplitude alone returns its partial derivatives (per-event f, d_k f, d_k d_l f are captured with tf.GradientTape); "
